@@ -356,7 +356,7 @@ def main():
         if diff:
             out.append({"i": i, "got": got, "diff": diff})
     out.append({"n": len(cases)})
-    json.dump(out, real_out)
+    json.dump(out, real_out, default=lambda x: "<%s>" % type(x).__name__)
     real_out.flush()
 
 
